@@ -111,9 +111,12 @@ StopAt(ops, vals) == LET S == {j \in DOMAIN ops : ~Truthy(Link(ops, vals, j))}
                      IN IF S = {} THEN Len(ops) ELSE CHOOSE j \in S : \A i \in S : j <= i
 ChainRef(ops, vals) == [out |-> Link(ops, vals, StopAt(ops, vals)), n |-> StopAt(ops, vals) + 1]
 
-(* member: declarative reference and FlattenInListTransform *)
+(* member: declarative reference and FlattenInListTransform.  Kinds tuple/list/set/dict are displays  *)
+(* written in the expression; vtuple/vlist/vset/vfrozenset/vdict are run-time objects held in a typed *)
+(* variable (never flattened: PySequence_Contains / PySet_Contains / PyDict_Contains)                *)
+HashKinds == {"set", "dict", "vset", "vfrozenset", "vdict"}
 MemberRef(kind, neg, x, ms) ==
-  IF kind \in {"set", "dict"} /\ x = "U" THEN "E:TypeError"
+  IF kind \in HashKinds /\ x = "U" THEN "E:TypeError"
   ELSE B((\E j \in DOMAIN ms : ms[j] = x \/ Truthy(Rich(ms[j], "==", x))) # neg)
 FlattenApplies(kind, ms) == kind \in {"tuple", "list", "set"} /\ Len(ms) >= 1
 Flatten(neg, x, ms) == IF neg THEN B(\A j \in DOMAIN ms : Truthy(Rich(x, "!=", ms[j])))
@@ -125,7 +128,7 @@ FlattenLog(kind, ms, leaves) == IF FlattenApplies(kind, ms) /\ leaves THEN [i \i
 \* the two ways in which dropping identity and hashing can show
 IdentityOnly(x, ms) == /\ \E j \in DOMAIN ms : ms[j] = x
                        /\ ~\E j \in DOMAIN ms : Truthy(Rich(ms[j], "==", x))
-MemberWhy(kind, x, ms) == IF kind \in {"set", "dict"} /\ x = "U" THEN "unhashable"
+MemberWhy(kind, x, ms) == IF kind \in HashKinds /\ x = "U" THEN "unhashable"
                           ELSE IF IdentityOnly(x, ms) THEN "identity" ELSE "none"
 
 (* strin: x a record [k, cs, v, t]: k = "str"|"bytes" (cs: code points), "int" (v), "tok" (t: a token) *)
@@ -248,7 +251,7 @@ ChainRaise == /\ c.part = "chain" /\ pc = "links" /\ LET r == Link(c.ops, c.vals
 (*      first member that is the same object as x or equal to it decides ---- *)
 Hit(j) == c.ms[j] = c.x \/ Truthy(Rich(c.ms[j], "==", c.x))
 FirstHit == LET S == {j \in DOMAIN c.ms : Hit(j)} IN IF S = {} THEN 0 ELSE CHOOSE j \in S : \A i \in S : j <= i
-Unhashable == c.kind \in {"set", "dict"} /\ c.x = "U"
+Unhashable == c.kind \in HashKinds /\ c.x = "U"
 MemberOperands == /\ c.part = "member" /\ pc = "start"
                   /\ pc' = "scan" /\ log' = [i \in 1..(Len(c.ms) + 1) |-> i - 1] /\ UNCHANGED <<c, k, out>>
 MemberHashFail == /\ c.part = "member" /\ pc = "scan" /\ Unhashable
